@@ -98,6 +98,11 @@ def events_for_case(o, cid, g, g2, ids, relations=True):
         eer_event(ev, s, dict(o, ep=ep2, en=en2), 1, g)
     except Exception as ex:  # noqa
         e["exc"] = sd.exc_str(ex)
+        return evs
+    # ... and another configuration (string or enum member)
+    o3 = sd.set_config_event(ev, s, dict(o, ep=ep2, en=en2), g, k=cid)
+    if o3 is not None:
+        eer_event(ev, s, o3, 1, g)
     return evs
 
 
